@@ -107,6 +107,9 @@ impl DhtHandler {
     }
 
     async fn run_once(&mut self) {
+        #[cfg(feature = "verif")]
+        crate::verif_probe::timer_queue_len(self.timer.verif_len());
+
         select! {
             token = self.timer.next(), if !self.timer.is_empty() => {
                 // `unwrap` is OK because we checked the timer is non-empty, so it should never
